@@ -124,7 +124,19 @@ func genMulti(t *rapid.T) kit.Cmd {
 		}
 		return out
 	}
-	switch rapid.IntRange(0, 15).Draw(t, "cmd") {
+	switch rapid.IntRange(0, 18).Draw(t, "cmd") {
+	case 16, 17, 18:
+		// every other command that takes a key lock (a command that takes the lock it already holds locks
+		// itself out as soon as a writer waits in between: reported here without needing that writer)
+		tpl := rapid.SampledFrom(singleKeyForms).Draw(t, "form")
+		args := make([]string, len(tpl))
+		for i, a := range tpl {
+			if a == "K" {
+				a = key(t)
+			}
+			args[i] = a
+		}
+		return kit.MkCmd(args...)
 	case 0:
 		var args []string
 		for _, k := range ks(1, 4) {
@@ -172,6 +184,20 @@ func genMulti(t *rapid.T) kit.Cmd {
 		}
 		return kit.MkCmd("LMOVE", key(t), key(t), "RIGHT", "LEFT")
 	}
+}
+
+var singleKeyForms = [][]string{
+	{"HSET", "K", "f", "v"}, {"HSET", "K", "f", "v", "g", "w"}, {"HGET", "K", "f"}, {"HMGET", "K", "f", "g", "h"}, {"HDEL", "K", "f", "g"},
+	{"HINCRBY", "K", "n", "1"}, {"HINCRBYFLOAT", "K", "n", "0.5"}, {"HKEYS", "K"}, {"HVALS", "K"}, {"HLEN", "K"}, {"HEXISTS", "K", "f"},
+	{"HSTRLEN", "K", "f"}, {"HSETNX", "K", "f", "v"}, {"HRANDFIELD", "K", "2", "WITHVALUES"}, {"HGETALL", "K"},
+	{"ZADD", "K", "1", "m", "2", "n"}, {"ZADD", "K", "INCR", "1", "m"}, {"ZREM", "K", "m", "n"}, {"ZRANK", "K", "m"}, {"ZRANGE", "K", "0", "-1", "WITHSCORES"},
+	{"XADD", "K", "*", "f", "v"}, {"XADD", "K", "MAXLEN", "1", "*", "f", "v"}, {"XRANGE", "K", "-", "+"},
+	{"LINDEX", "K", "0"}, {"LRANGE", "K", "0", "-1"}, {"LSET", "K", "0", "v"}, {"LREM", "K", "0", "x"}, {"LTRIM", "K", "0", "0"}, {"LPOS", "K", "x"},
+	{"LPUSHX", "K", "v"}, {"RPUSHX", "K", "v"}, {"LPUSH", "K", "a", "b"}, {"RPOP", "K"}, {"LPOP", "K", "2"},
+	{"SETEX", "K", "100", "v"}, {"SETNX", "K", "v"}, {"SET", "K", "v", "KEEPTTL"}, {"SET", "K", "v", "EX", "100", "GET"}, {"GETRANGE", "K", "0", "-1"},
+	{"SETRANGE", "K", "1", "v"}, {"STRLEN", "K"}, {"APPEND", "K", "v"}, {"INCRBY", "K", "2"}, {"DECR", "K"}, {"DECRBY", "K", "2"}, {"INCRBYFLOAT", "K", "0.5"},
+	{"SISMEMBER", "K", "m"}, {"SREM", "K", "m"}, {"SRANDMEMBER", "K", "2"}, {"SMEMBERS", "K"}, {"SPOP", "K", "1"}, {"SSCAN", "K", "0"},
+	{"EXPIRE", "K", "100", "NX"}, {"EXPIRE", "K", "100", "GT"}, {"TTL", "K"}, {"PERSIST", "K"}, {"TYPE", "K"},
 }
 
 func genOrder(t *rapid.T) OrderCase {
